@@ -235,7 +235,8 @@ def truthy_default_sites(fn_node):
                 yield n
 
 
-def check_cleanup(repo, res, m, cname):
+def check_cleanup(repo, res, m, cname, prop=None):
+    prop = prop or PROP
     selfn = m.params[0]
     cfg = CFG(m.node)
     steps = {}
@@ -261,14 +262,14 @@ def check_cleanup(repo, res, m, cname):
         ok = not late
         res.inst("Q-ORDER", f"{m.qualname}: relabelling is the last step", ok)
         if not ok:
-            res.add(mk_finding(PROP, "Q-ORDER", m, late[0], f"{m.qualname}: `{unparse(late[0], 60)}` can run after the labels were converted to 0..n-1; removing or merging afterwards leaves gaps in the labels", role="relabel-last"))
+            res.add(mk_finding(prop, "Q-ORDER", m, late[0], f"{m.qualname}: `{unparse(late[0], 60)}` can run after the labels were converted to 0..n-1; removing or merging afterwards leaves gaps in the labels", role="relabel-last"))
     for is_, _ in steps.get("isolates", []):
         after = cfg.reachable(is_)
         late = [s for s, _ in steps.get("singletons", []) if s in after]
         ok = not late
         res.inst("Q-ORDER", f"{m.qualname}: singleton edges are removed before isolated nodes", ok)
         if not ok:
-            res.add(mk_finding(PROP, "Q-ORDER", m, late[0], f"{m.qualname}: singleton edges are removed after the isolated nodes; a node that was only in singleton edges becomes isolated and is never removed (with connected=False)", role="singletons-first"))
+            res.add(mk_finding(prop, "Q-ORDER", m, late[0], f"{m.qualname}: singleton edges are removed after the isolated nodes; a node that was only in singleton edges becomes isolated and is never removed (with connected=False)", role="singletons-first"))
     # ---- Q-FLAG
     for kind, lst in steps.items():
         flag, positive = FLAG_OF[kind]
@@ -295,14 +296,14 @@ def check_cleanup(repo, res, m, cname):
                     ok = True
             res.inst("Q-FLAG", f"{m.qualname}: step {kind} is guarded by `{'' if positive else 'not '}{flag}`", ok)
             if not ok:
-                res.add(mk_finding(PROP, "Q-FLAG", m, st, f"{m.qualname}: the {kind} step is not guarded by exactly `{'' if positive else 'not '}{flag}` (found `{unparse(guard[0], 40) if guard else 'no guard'}`); the flag's documented meaning is inverted or ignored", role=flag))
+                res.add(mk_finding(prop, "Q-FLAG", m, st, f"{m.qualname}: the {kind} step is not guarded by exactly `{'' if positive else 'not '}{flag}` (found `{unparse(guard[0], 40) if guard else 'no guard'}`); the flag's documented meaning is inverted or ignored", role=flag))
     for flag in ("multiedges", "singletons", "isolates", "connected", "relabel"):
         if flag in m.all_params:
             kind = next(k for k, v in FLAG_OF.items() if v[0] == flag)
             ok = kind in steps
             res.inst("Q-FLAG", f"{m.qualname}: option `{flag}` has a step", ok)
             if not ok:
-                res.add(mk_finding(PROP, "Q-FLAG", m, m.node, f"{m.qualname} accepts `{flag}` but performs no corresponding step", role=flag))
+                res.add(mk_finding(prop, "Q-FLAG", m, m.node, f"{m.qualname} accepts `{flag}` but performs no corresponding step", role=flag))
     # ---- Q-COPY
     work = None
     for st in own_statements(m.node):
@@ -333,7 +334,7 @@ def check_cleanup(repo, res, m, cname):
     ok = work is not None
     res.inst("Q-COPY", f"{m.qualname}: works on self when in_place else on self.copy()", ok)
     if not ok:
-        res.add(mk_finding(PROP, "Q-COPY", m, m.node, f"{m.qualname} does not select `self` for in_place=True and `self.copy()` for in_place=False", role="select"))
+        res.add(mk_finding(prop, "Q-COPY", m, m.node, f"{m.qualname} does not select `self` for in_place=True and `self.copy()` for in_place=False", role="select"))
         return
     for kind, lst in steps.items():
         for st, c in lst:
@@ -342,18 +343,18 @@ def check_cleanup(repo, res, m, cname):
             arg_ok = all(not (isinstance(x, ast.Name) and x.id == selfn) for a in c.args for x in ast.walk(a))
             res.inst("Q-COPY", f"{m.qualname}: step {kind} acts on `{work}`", ok and arg_ok)
             if not (ok and arg_ok):
-                res.add(mk_finding(PROP, "Q-COPY", m, st, f"{m.qualname}: the {kind} step acts on (or selects from) `{selfn}` instead of the working network `{work}`; with in_place=False the receiver is modified or the wrong elements are removed", role=kind))
+                res.add(mk_finding(prop, "Q-COPY", m, st, f"{m.qualname}: the {kind} step acts on (or selects from) `{selfn}` instead of the working network `{work}`; with in_place=False the receiver is modified or the wrong elements are removed", role=kind))
             if kind in ("component", "relabel"):
                 ip = next((k.value for k in c.keywords if k.arg == "in_place"), None)
                 ok2 = isinstance(ip, ast.Constant) and ip.value is True
                 res.inst("Q-COPY", f"{m.qualname}: step {kind} is applied in place to `{work}`", ok2)
                 if not ok2:
-                    res.add(mk_finding(PROP, "Q-COPY", m, st, f"{m.qualname}: the {kind} step is not applied with in_place=True, so its result is discarded", role=kind + ":in_place"))
+                    res.add(mk_finding(prop, "Q-COPY", m, st, f"{m.qualname}: the {kind} step is not applied with in_place=True, so its result is discarded", role=kind + ":in_place"))
     rets = returns_of(m.node)
     ok = bool(rets) and all(isinstance(r.value, ast.Name) and r.value.id == work for r in rets)
     res.inst("Q-COPY", f"{m.qualname} returns `{work}`", ok)
     if not ok:
-        res.add(mk_finding(PROP, "Q-COPY", m, rets[0] if rets else m.node, f"{m.qualname} does not return the network it cleaned", role="return"))
+        res.add(mk_finding(prop, "Q-COPY", m, rets[0] if rets else m.node, f"{m.qualname} does not return the network it cleaned", role="return"))
 
 
 def inline_label(fn, adder_stmt, mapname, label_param):
